@@ -56,9 +56,6 @@ WriteSds(w, shape, ty, sc, unl) ==
     /\ Len(sc) = Len(shape)
     /\ (w = "NC") => (\A i \in 1..Len(sc) : sc[i] = 0)
     /\ unl => (w = "SD" /\ sc[1] = 0)
-    \* (the netCDF-style calls present ONE record count for all datasets with an unlimited dimension: datasets with
-    \*  different record counts in one file are not generated)
-    /\ unl => \A i \in 1..Len(sds) : sds[i].unl => sds[i].shape[1] = shape[1]
     /\ Mix \/ ClearSds(w)
     \* (the netCDF-style calls of this library can only create a file, not extend one: NC writes first)
     /\ (w = "NC") => (ty \in NcTypes /\ sds = <<>> /\ ras = <<>>)
@@ -76,7 +73,10 @@ ListSds(r) ==
 \* listing through the netCDF-style calls: shape, element size, float or not, seed
 ListSdsNc ==
     /\ st = "ready"
-    /\ Log("ListSdsNc", [a |-> 0], [items |-> [i \in 1..Len(sds) |-> [shape |-> sds[i].shape, size |-> SizeOf[sds[i].type], float |-> IsFloat(sds[i].type), k |-> sds[i].k]]])
+    \* (the netCDF-style calls present ONE record count for all datasets with an unlimited dimension -- their data model --
+    \*  so those datasets are left out of this listing)
+    /\ LET vis == SelectSeq(sds, LAMBDA e : ~e.unl) IN
+       Log("ListSdsNc", [a |-> 0], [items |-> [i \in 1..Len(vis) |-> [shape |-> vis[i].shape, size |-> SizeOf[vis[i].type], float |-> IsFloat(vis[i].type), k |-> vis[i].k]]])
     /\ UNCHANGED <<st, sds, ras, nk>>
 \* names of the Var0.0 Vgroups of the datasets written through SD or NC (need = they must all be there)
 NamesOf(s) == [i \in 1..Len(s) |-> s[i].k]
